@@ -108,6 +108,67 @@ fn walk(steps: &[Step], loc: ValuePointerRef, out: &mut Out) {
                 walk(rest, next, out);
             }
         }
+        // the callee returned: the caller's location, observed again
+        observe(loc, "pop", None, None, out);
+    }
+}
+
+fn random_step(rng: &mut Rng, mode: u64) -> Step {
+    let keys = ["a", "b", "toto", "tata", "", "k k", "ключ", "é", "x.y", "[0]", "0"];
+    let key = match mode {
+        0 => false,
+        1 => true,
+        _ => rng.chance(1, 2),
+    };
+    if key {
+        Step::Key(rng.pick(&keys).to_string())
+    } else {
+        Step::Idx(match rng.below(6) {
+            0 => usize::MAX,
+            1 => 0,
+            2 => 4294967296usize,
+            _ => rng.below(1000) as usize,
+        })
+    }
+}
+
+/// A walk over a tree of locations, as the deserializer does it: `ops` is a sequence of pushes (Some) and returns (None); every
+/// push is made onto the current node's own location (siblings share the prefix), the child is observed and explored, and on its
+/// return the parent is observed again.  Unbalanced returns at the root end the walk.
+fn exec<'a>(ops: &mut std::slice::Iter<'a, Option<Step>>, loc: ValuePointerRef, out: &mut Out) {
+    while let Some(op) = ops.next() {
+        match op {
+            Some(st @ Step::Key(k)) => {
+                let next = loc.push_key(k);
+                observe(next, "push", Some(st), None, out);
+                exec(ops, next, out);
+            }
+            Some(st @ Step::Idx(i)) => {
+                let next = loc.push_index(*i);
+                observe(next, "push", Some(st), None, out);
+                exec(ops, next, out);
+            }
+            None => return,
+        }
+        observe(loc, "pop", None, None, out);
+    }
+}
+
+fn ops_j(ops: &[Option<Step>]) -> J {
+    J::Array(ops.iter().map(|o| o.as_ref().map(step_j).unwrap_or(json!({"t": "ret", "k": "", "i": ""}))).collect())
+}
+
+pub fn run_ops(ops: &[Option<Step>], out: &mut Out) {
+    let r = crate::util::quiet_catch(std::panic::AssertUnwindSafe(|| {
+        let mut o = json!({"e": "reset", "owned": owned_j(&ValuePointerRef::Origin.to_owned()), "origin": ValuePointerRef::Origin.is_origin(),
+                           "first": opt_s(ValuePointerRef::Origin.first_field()), "last": opt_s(ValuePointerRef::Origin.last_field())});
+        o["inp"] = json!({"path": [], "ops": ops_j(ops)});
+        out.emit(&o);
+        exec(&mut ops.iter(), ValuePointerRef::Origin, out);
+    }));
+    if let Err(m) = r {
+        out.emit(&json!({"e": "push", "step": {"t": "key", "k": format!("<panic: {m}>"), "i": ""}, "owned": [], "origin": true,
+                         "first": opt_s(None), "last": opt_s(None)}));
     }
 }
 
@@ -142,7 +203,20 @@ pub fn main(args: &[String]) {
     match args.first().map(|s| s.as_str()) {
         Some("replay") => {
             for rec in crate::util::read_ndjson_stdin() {
-                run_path(&parse_path(&rec), &mut out);
+                match rec.get("ops").and_then(|o| o.as_array()) {
+                    Some(ops) => {
+                        let ops: Vec<Option<Step>> = ops
+                            .iter()
+                            .map(|s| match s["t"].as_str().unwrap() {
+                                "key" => Some(Step::Key(s["k"].as_str().unwrap().to_string())),
+                                "idx" => Some(Step::Idx(s["i"].as_str().unwrap().parse().unwrap())),
+                                _ => None,
+                            })
+                            .collect();
+                        run_ops(&ops, &mut out)
+                    }
+                    None => run_path(&parse_path(&rec), &mut out),
+                }
             }
         }
         Some("random") => {
@@ -176,7 +250,29 @@ pub fn main(args: &[String]) {
                 run_path(&p, &mut out);
             }
         }
-        _ => panic!("usage: dh ptr replay|random N MAXLEN"),
+        Some("tree") => {
+            let n: usize = args[1].parse().unwrap();
+            let maxops: u64 = args[2].parse().unwrap();
+            let mut rng = Rng::from_env(0xC19 + 1);
+            for _ in 0..n {
+                let mode = rng.below(4);
+                let nops = rng.below(maxops + 1);
+                let mut depth = 0u64;
+                let mut ops = Vec::new();
+                for _ in 0..nops {
+                    // returns only while something is pushed; bias towards going down, with runs of siblings
+                    if depth > 0 && rng.chance(2, 5) {
+                        ops.push(None);
+                        depth -= 1;
+                    } else {
+                        ops.push(Some(random_step(&mut rng, mode)));
+                        depth += 1;
+                    }
+                }
+                run_ops(&ops, &mut out);
+            }
+        }
+        _ => panic!("usage: dh ptr replay|random N MAXLEN|tree N MAXDEPTH"),
     }
     out.flush();
 }
